@@ -21,6 +21,12 @@ PROP = dict(
         # state level: the vault bookkeeping around CalculationOfRewards (time base, BlockHeight == 0 flag, tracker, stamps)
         "Comdex.C18.vault_calc_books_interest", "Comdex.C18.vault_next_interval_starts_here",
         "Comdex.C18.accrual_subadditive", "Comdex.C18.more_frequent_triggering_not_more", "Comdex.C18.fee_toggle_restarts_clock",
+        # state level: the locker bookkeeping (collector rate + stamp, locker stamp + BlockHeight == 0 flag, tracker), all histories
+        "Comdex.C18.savings_only_for_time_at_positive_rate", "Comdex.C18.savings_time_budget_from_any_state",
+        "Comdex.C18.zero_rate_window_touched_counterexample",
+        "Comdex.C18.locker_calc_books_interest", "Comdex.C18.locker_move_books_interest", "Comdex.C18.rate_change_restarts_clock",
+        "Comdex.C18.zero_rate_window_earns_nothing", "Comdex.C18.locker_more_frequent_triggering_not_more",
+        "Comdex.C18.accrual_subadditive_across_rate_change",
     ],
     harness_tests=["TestC18"],
     trusted_base=[KERNEL_TB, HARNESS_TB, DEC_TB,
@@ -37,6 +43,15 @@ PROP = dict(
                   "delivering the real MsgVaultInterestCalc through the message router, calling CalculateVaultInterest and WasmUpdatePairsVault "
                   "on real records and comparing every record field after every call; the single calculation over the combined interval is run "
                   "on a discarded branch of the same real state for the monitor accrual_subadditive",
+                  "Model/LockerAccrual.lean is hand-written from x/rewards/keeper/rewards.go:538-637 (CalculateLockerRewards), "
+                  "x/locker/keeper/msg_server.go:26-399 (the five locker messages and what they stamp), x/collector/keeper/collector.go:679-811 "
+                  "(WasmUpdateCollectorLookupTable, LockerIterateRewards) and :41-61 (DecreaseNetFeeCollectedData): state = collector entry "
+                  "(rate, stamp), locker (balance, returns, BlockHeight flag, BlockTime), tracker, net fees, rewards whitelist; tied by delivering "
+                  "the real locker messages through the message router and the rate / whitelist changes as JSON through the app's wasm "
+                  "CustomMessenger (DispatchMsg) on one real collector entry and locker, every record field compared after every call; the "
+                  "monitors zero_time / zero_rate_window / accrued_interval compare the REAL credited amount with the formula over the interval "
+                  "that a specification ghost (time of the last rate update, time the locker was last settled; kept independently by the harness "
+                  "and by the Lean driver, never reading the stamps) allows",
                   "Go's math.Pow itself is NOT modelled: the family-(b) theorems assume the explicit hypotheses FloatOps (pow >= 1, "
                   "pow x 0 = 1, quasi-multiplicative within 2^-40) and PowMonoTime / PowMonoRate; the harness TESTS them on 3*10^6 (quick) / "
                   "10^8 (thorough) points per hypothesis (rates in [0,10], 0..50 years) - a test, not a proof. PowMonoTime/PowMonoRate "
@@ -47,7 +62,10 @@ PROP = dict(
                  "principal is an integer (sdk.Int printed with String(), as every caller does), 0 <= principal; global indices >= 1.0 "
                  "(they start at 1.0 and only grow) for the two-interval law; rates >= 0; elapsed time >= 0",
                  "family (b): principal within int64 (the code panics otherwise - modelled), results finite"],
-    rule="(vault flows: one case = one sequence of fee updates / interest calculations on one real vault) "
+    rule="(vault flows: one case = one sequence of fee updates / interest calculations on one real vault; locker flows: one case = one "
+         "history of create / deposit / withdraw / close / reward-calc messages and saving-rate / whitelist changes through the wasm "
+         "bindings on one real collector entry, with zero-rate windows of days to years, idle and touched lockers, switch-on and accrual "
+         "in one block) "
          "each case is one group of related calls on the real code (same inputs varied in elapsed time / principal / rate, two consecutive "
          "intervals against the combined interval, same parameters at several utilisations incl. 0, the kink, its neighbours and 1) or one "
          "accrual sequence on a real vault / locker / lend position; distinct = distinct trace text, non-trivial = at least one call returned ok",
@@ -68,7 +86,14 @@ META = dict(
          "never negative and pays exactly the whole units; at the level of the vault records (which interval is accrued: vault stamp or, "
          "when the vault's BlockHeight flag is 0, the pair's stamp; tracker; whole units; stamps) two consecutive calculations never book "
          "more than a single calculation over the combined interval beyond the explicit float slack, from any start stamp, and the flag is "
-         "consumed by every calculation (accrual_subadditive, more_frequent_triggering_not_more); monotonicity in time and rate is proved only under PowMonoTime/PowMonoRate, "
+         "consumed by every calculation (accrual_subadditive, more_frequent_triggering_not_more); at the level of the LOCKER records, "
+         "over all histories of locker messages and saving-rate changes: for every rate value r != 0 the time credited at r plus the time "
+         "still claimable never exceeds the time the rate has been r (no savings for a zero-rate window, none twice, none at another "
+         "rate: savings_only_for_time_at_positive_rate - PARTIAL: histories without deposit / withdraw while the rate is zero, because "
+         "the code then credits the zero-rate window, zero_rate_window_touched_counterexample, reproduced, monitors *_touched), each "
+         "accruing call books exactly the formula over [clock, now] at the rate in force, every rate change restarts the clock, an idle "
+         "locker earns nothing over a zero-rate window and nothing in the block of the switch-on, and triggering more often - also "
+         "across a rate change - earns no more beyond the float slack; monotonicity in time and rate is proved only under PowMonoTime/PowMonoRate, "
          "which the harness shows to be false of math.Pow in the last bit - the real function then returns LESS interest for one more "
          "second / a higher rate (kernel-checked counterexamples on the observed values; monitors mono_time_pow / mono_rate_pow).",
     note="Trusted: Lean kernel; Base/Dec.lean (differentially tested); the harness generators. Family (b) is PARTIAL: math.Pow is an "
